@@ -23,10 +23,9 @@ Record Ctl (s : st) : Prop := {
   (* ET: whatever is pending while the poller sleeps has its edge; an end of stream that came during the loop too *)
   c_et_idle : md c = ET -> ph s = Idle -> closed s = false -> pending s = true -> edge s = true;
   c_et_loop : md c = ET -> (exists i, ph s = Loop i false) -> eofsent s = true -> edge s = true;
-  (* ONESHOT: armed exactly while nobody works on the connection; re-arming queues what is pending *)
+  (* ONESHOT: armed while the poller sleeps; re-arming queues what is pending *)
   c_os_idle : md c = OS -> rearms c = true -> ph s = Idle -> closed s = false ->
-              armed s = true /\ (pending s = true -> edge s = true);
-  c_os_busy : md c = OS -> is_idle (ph s) = false -> armed s = false
+              armed s = true /\ (pending s = true -> edge s = true)
 }.
 
 Lemma short_read_drains (n : nat) (l : list A) : length (firstn n l) < n -> skipn n l = [].
@@ -42,9 +41,10 @@ Ltac fields := cbn [ph avail edge armed eofsent closed sent delivered].
 
 Lemma step_acc s a : Acc s -> Acc (step s a).
 Proof.
-  unfold Acc. intros H. destruct a as [x d| | | | |]; cbn [ReadLoop.step].
+  unfold Acc. intros H. destruct a as [x d| | | | | |]; cbn [ReadLoop.step].
   - destruct (eofsent s); [exact H|]. fields. rewrite app_assoc, H. reflexivity.
   - destruct (eofsent s); exact H.
+  - destruct (md c); try exact H. destruct (closed s); exact H.
   - destruct (ph s); try exact H. destruct (deliverable c s); exact H.
   - destruct (ph s); try exact H. fields. rewrite <- app_assoc, firstn_skipn. exact H.
   - destruct (ph s); try exact H. destruct (avail s) eqn:Ea; fields.
@@ -83,14 +83,21 @@ Proof.
     intros _. unfold raise. rewrite Hm, Har. reflexivity.
 Qed.
 
+Lemma ctl_mod s : Ctl s -> Ctl (step s Mod).
+Proof.
+  intros HC. cbn [ReadLoop.step]. destruct (md c) eqn:Em; try exact HC. destruct (closed s) eqn:Ec; [exact HC|].
+  destruct HC. constructor; fields; try solve [fin].
+  intros _ Hr Hp _. split; [reflexivity|]. intros Hpe. unfold pending in Hpe; fields.
+  destruct (edge s); [reflexivity|]. cbn. exact Hpe.
+Qed.
+
 Lemma ctl_wake s : Ctl s -> Ctl (step s Wake).
 Proof.
   intros HC. cbn [ReadLoop.step]. destruct (ph s) eqn:Ep; try exact HC.
   destruct (deliverable c s) eqn:Ed; [|exact HC].
   unfold deliverable in Ed. apply andb_true_iff in Ed as [Ec Ed]. apply negb_true_iff in Ec.
   destruct HC. constructor; fields; try solve [fin].
-  - destruct (eofsent s); fin.
-  - intros Hm _. rewrite Hm. reflexivity.
+  destruct (eofsent s); fin.
 Qed.
 
 Lemma ctl_read s : Ctl s -> Ctl (step s Read).
@@ -135,7 +142,7 @@ Qed.
 
 Lemma step_ctl s a : Ctl s -> Ctl (step s a).
 Proof.
-  destruct a; [apply ctl_arrive | apply ctl_peereof | apply ctl_wake | apply ctl_read | apply ctl_drain | apply ctl_rearm].
+  destruct a; [apply ctl_arrive | apply ctl_peereof | apply ctl_mod | apply ctl_wake | apply ctl_read | apply ctl_drain | apply ctl_rearm].
 Qed.
 
 Lemma init_acc : Acc (@init A). Proof. reflexivity. Qed.
@@ -197,14 +204,6 @@ Proof.
   unfold Acc in Ha. rewrite Hav, app_nil_r in Ha. split; assumption.
 Qed.
 
-(* ONESHOT: while somebody works on the connection no further event can be delivered, so there is never a second reader
-   (this is what lets AsyncRead start its task without a gate in ONESHOT mode) *)
-Lemma oneshot_one_reader (l : list action) : md c = OS -> ph (run l) <> Idle -> deliverable c (run l) = false.
-Proof.
-  intros Hm Hp. destruct (run_inv l) as [_ HC]. unfold deliverable. rewrite Hm.
-  rewrite (c_os_busy _ HC Hm); [apply andb_false_r|]. destruct (ph (run l)); [contradiction| | |]; reflexivity.
-Qed.
-
 (* ---- nobody spins ---- *)
 Definition tok (s : st) : nat :=
   match md c with LT => 0 | ET => if edge s then 1 else 0 | OS => if armed s && edge s then 1 else 0 end.
@@ -220,11 +219,11 @@ Definition weight (s : st) : nat :=
 
 Definition measure (s : st) : nat := 8 * length (avail s) + 6 * tok s + weight s.
 
-Definition is_input (a : action) : bool := match a with Arrive _ _ | PeerEOF => true | _ => false end.
+Definition is_input (a : action) : bool := match a with Arrive _ _ | PeerEOF | Mod => true | _ => false end.
 
 Lemma step_decreases s a : is_input a = false -> enabled c s a = true -> measure (step s a) < measure s.
 Proof.
-  intros Ha He. destruct a as [x d| | | | |]; try discriminate; cbn [enabled] in He; cbn [ReadLoop.step].
+  intros Ha He. destruct a as [x d| | | | | |]; try discriminate; cbn [enabled] in He; cbn [ReadLoop.step].
   - (* Wake *)
     destruct (ph s) eqn:Ep; try discriminate. rewrite He.
     unfold measure, tok, weight, deliverable in *; fields. rewrite Ep.
@@ -272,9 +271,10 @@ Fixpoint steps_taken (s : st) (l : list action) : nat :=
 
 Lemma disabled_noop (s : st) (a : action) : enabled c s a = false -> step s a = s.
 Proof.
-  destruct a as [x d| | | | |]; cbn [enabled ReadLoop.step]; intros H.
+  destruct a as [x d| | | | | |]; cbn [enabled ReadLoop.step]; intros H.
   - apply negb_false_iff in H. rewrite H. reflexivity.
   - apply negb_false_iff in H. rewrite H. reflexivity.
+  - destruct (md c); try reflexivity. apply negb_false_iff in H. rewrite H. reflexivity.
   - destruct (ph s); try reflexivity. rewrite H. reflexivity.
   - destruct (ph s); try discriminate; reflexivity.
   - destruct (ph s); try discriminate; reflexivity.
